@@ -712,7 +712,7 @@ def work(shard, seed, tier):
     acc = Acc()
     kill = shard["part"] == "kill"
     if tier == "quick":
-        n, budget = 80, 25
+        n, budget = 64, 16
     else:
         n, budget = (700, 420) if not kill else (45, 420)
     totals = {"points": 0, "cycle_points": 0, "kills": 0}
